@@ -594,7 +594,7 @@ func init() {
 	fw.Register(&fw.Check{
 		ID:    "C07",
 		Level: "model_checking",
-		Rule:  "deviation-bounded exhaustive exploration of network behaviours for a real hap.Connection over a scripted net.Conn: message sequences of length 1–2 (thorough 1–3) over lengths {1,2,17,1023,1024,1025,2048,4095,4096,4097} × 6 caller-buffer policies (1, 7, 1024, 4096, 8192, net/http's 1-then-4096); 0 deviations = one segment per message; deviations = split at every byte offset, coalesce adjacent segments, read timeout before a segment, the application writing on the connection between caller reads; bound 1 completely, bound 2 for split+timeout, coalesce+split (thorough: all length pairs; every pair of splits for messages ≤1025). Plus the session-switch scenarios: every placement of 1–3 Read calls (blocked until data or aborted by a timeout) relative to the world steps install-cryptographer / write-response / first-ciphertext-arrives: the response must reach the wire in plaintext and the request must be delivered as its plaintext. Oracle per execution: exact byte equality, no EOF/error/close while the peer sends well-formed frames, and the promptness invariant (the network is asked for more only when every completely received frame has been handed to the caller). states = executions, distinct_nontrivial = distinct (deviation kind, message count, number of underlying reads) classes",
+		Rule:  "deviation-bounded exhaustive exploration of network behaviours for a real hap.Connection over a scripted net.Conn: message sequences of length 1–2 (thorough 1–3) over lengths {1,2,17,1023,1024,1025,2048,4095,4096,4097} × 6 caller-buffer policies (1, 7, 1024, 4096, 8192, net/http's 1-then-4096); 0 deviations = one segment per message; deviations = split at every byte offset, coalesce adjacent segments, read timeout before a segment, the application writing on the connection between caller reads; bound 1 completely, bound 2 for split+timeout, coalesce+split (thorough: all length pairs; every pair of splits for messages ≤1025). Plus the session-switch scenarios: every placement of 1–3 Read calls (blocked until data or aborted by a timeout) relative to the world steps install-cryptographer / write-response / first-ciphertext-arrives: the response must reach the wire in plaintext and the request must be delivered as its plaintext. Oracle per execution: exact byte equality, no EOF/error/close while the peer sends well-formed frames, and the promptness invariant (the network is asked for more only when every completely received frame has been handed to the caller). states = executions, distinct_nontrivial = distinct (deviation kind, message count, number of underlying reads) classes Session-switch scenarios are repeated for a SECOND pair-verify on a connection that is already encrypted (one request delivered under the first keys; the second exchange's response leaves under the first keys, what follows is read under the new ones).",
 		Run:   c07Run,
 		Replay: func(c *fw.Ctx, raw json.RawMessage) {
 			var sw c07SwitchCase
